@@ -31,6 +31,9 @@ WRAPPERS = [
     ('\\begin{e}[o]{m}\\begin{f}', '\\end{f} t\\end{e}'),
     ('a\\begin{e}\\begin{f}{k}b\\begin{g}\n', '\n\\end{g}c\\end{f}\\end{e}d'),
     ('\\begin{center}\\hid{0}', '\\hid{0}\\end{center}'),
+    ('\\begin{itemize}\\item q ', ' r\\item z\\end{itemize}'),
+    ('p{q ', ' r}s'),
+    ('\\o[k ', ' l]{m}'),
 ]
 
 
@@ -77,6 +80,8 @@ def rename(c, old, new):
 def check_hostile(atoms, name, wrapper, sub='hostile'):
     body = build_body(atoms, name)
     pre, suf = wrapper
+    if ('{%s}' % name) in pre:
+        pre, suf = '', ''       # the wrapper itself would become opaque under this name
     src = pre + '\\begin{%s}' % name + body + '\\end{%s}' % name + suf
     builtin = name in BUILTIN
     skip = () if builtin else (name,)
